@@ -284,10 +284,22 @@ def check_fit(c):
         if all(n >= 2 for n in shape) and len(set(shape)) == 1:
             n = shape[0]
             X = teneva.ind_to_poi(I_trn, -1., 1., n, 'cheb')
-            for lamb in (1e-7, 1e-2):
+            for lamb in (1e-7, 1e-2, 0.0):
                 for e in (None, 1e-8):
                     case = dict(base, routine='anova_func', lamb=lamb, e=e)
                     ok, Z = _call(res, case, 'anova_func', lambda: teneva.anova_func(X, y_trn, n, -1., 1., lamb, e), tg)
+                    if ok:
+                        validate(res, case, Z, shape, 'anova_func', tg)
+                    # all samples at one point / fewer distinct points than basis functions: rank-deficient design
+                    X1 = np.zeros((12, d)) + 0.25
+                    y1 = np.full(12, float(T[(0,) * d]))
+                    case = dict(base, routine='anova_func.one_point', lamb=lamb, e=e)
+                    ok, Z = _call(res, case, 'anova_func', lambda: teneva.anova_func(X1, y1, n, -1., 1., lamb, e), tg)
+                    if ok:
+                        validate(res, case, Z, shape, 'anova_func', tg)
+                    X2 = X[:2]
+                    case = dict(base, routine='anova_func.two_points', lamb=lamb, e=e)
+                    ok, Z = _call(res, case, 'anova_func', lambda: teneva.anova_func(X2, y_trn[:2], n, -1., 1., lamb, e), tg)
                     if ok:
                         validate(res, case, Z, shape, 'anova_func', tg)
             for r0 in (1, 2):
